@@ -10,5 +10,4 @@ func replayRecorded(rep *Replay, path string) int {
 }
 
 func extraAssumptions(prop string) []string { return nil }
-func addBounded(prop, tier string, seed int, ev *Evidence) {}
 func cmdSelftest(args []string) int { return 0 }
